@@ -3,7 +3,7 @@ from __future__ import print_function
 import re
 import logging
 
-from .util import (Source, print_dump, get_marked_atribute, split_pkg, marked,
+from .util import (Source, print_dump, get_marked_atribute, split_pkg, marked, SOURCE_MARK,
                    get_marked_name, get_marked_import, get_all_usages, join_pkg)
 from .evaluator import EvalCtx
 from .nast import extract_scope
@@ -104,15 +104,22 @@ def location(project, source, position, filename=None, debug=False):
         if node:
             result = ctx.declarations(node, [])
 
+    def loc(n):
+        # positions in this file come from the text with the cursor mark inserted
+        ln, col = n.declared_at
+        if n.filename == source.filename and ln == position[0] and col > position[1]:
+            col -= len(SOURCE_MARK)
+        return _loc((ln, col), n.filename)
+
     locs = []
     for r in result:
         # runtime objects (builtins, compiled modules) have no source location
         if isinstance(r, list):
-            alts = [_loc(n.declared_at, n.filename) for n in r if hasattr(n, 'declared_at')]
+            alts = [loc(n) for n in r if hasattr(n, 'declared_at')]
             if alts:
                 locs.append(alts)
         elif hasattr(r, 'declared_at'):
-            locs.append(_loc(r.declared_at, r.filename))
+            locs.append(loc(r))
 
     return locs
 
